@@ -116,6 +116,7 @@ class Ctx:
         self.n_eval = 0
         self.distinct = set()
         self.budget = 50.0 if quick else 540.0
+        self.timing = {}
 
     def left(self):
         return self.budget - (time.time() - self.t0)
@@ -182,6 +183,18 @@ def exc_sig(e):
 
 
 # ----------------------------------------------------------------------------- blocks
+def timed(fn):
+    def wrapper(ctx, *a, **k):
+        t = time.time()
+        try:
+            return fn(ctx, *a, **k)
+        finally:
+            ctx.timing[fn.__name__] = ctx.timing.get(fn.__name__, 0.0) + time.time() - t
+    wrapper.__name__ = fn.__name__
+    return wrapper
+
+
+@timed
 def block_order(ctx, tm, psi, as_mpdm=False):
     """P&C family (all Taylor / RK tableaux), CMF variants: slope test; PS/PS2: exactness; VMF: accuracy"""
     run, rng = ctx.run, ctx.rng
@@ -228,6 +241,7 @@ def block_order(ctx, tm, psi, as_mpdm=False):
     run.sample(dict(block="order", model=tm.label, dims=tm.dims, normH=nh, T=T, mpdm=as_mpdm, criteria=criteria))
 
 
+@timed
 def block_tdvp(ctx, tm, psi, as_mpdm=False):
     """TDVP family on a full-rank state held at full bond dimension"""
     run, rng = ctx.run, ctx.rng
@@ -312,6 +326,7 @@ def td_reference(H0, H1, f, T, v0):
     return sol.y[:, -1].reshape(shape)
 
 
+@timed
 def block_td(ctx, tm, psi):
     """H(t) = H0 + cos(w t + phi) H1 through a callable (time local to each call, as documented)"""
     run, rng = ctx.run, ctx.rng
@@ -383,6 +398,7 @@ def block_td(ctx, tm, psi):
         run.violation(f"{nm}:td:exception:{exc_sig(e)}", replay_base(tm, v0, spec, T=T, error=repr(e)))
 
 
+@timed
 def block_solver(ctx, tm, psi, m_trunc=None):
     """krylov vs RK45 (tight tolerances) as local integrator: same answer, at any bond dimension"""
     run, rng = ctx.run, ctx.rng
@@ -414,6 +430,7 @@ def block_solver(ctx, tm, psi, m_trunc=None):
                                       err_rk45=float(np.linalg.norm(outs["RK45"] - ref)), bond=list(psi.bond_dims)))
 
 
+@timed
 def block_adaptive(ctx, tm, psi):
     run, rng = ctx.run, ctx.rng
     H = tm.dense_h()
@@ -468,6 +485,7 @@ def block_adaptive(ctx, tm, psi):
             run.violation(f"{nm}:adaptive:guess_dt", replay_base(tm, v0, spec, T=T, guess_dt=str(gd)))
 
 
+@timed
 def block_conserve(ctx, tm, qntot):
     """TDVP-PS conserves norm and energy to solver precision at ANY bond dimension; second-order
     self-convergence on the truncated manifold"""
@@ -518,6 +536,7 @@ def block_conserve(ctx, tm, qntot):
                                                                         after=list(cur.bond_dims)))
 
 
+@timed
 def block_bond(ctx, tm, psi):
     """no scheme lets bond dimensions exceed the configured limit (scalar and per-bond limits)"""
     run, rng = ctx.run, ctx.rng
@@ -591,6 +610,7 @@ def gauge_variants(ctx, tm, psi):
         yield "mid-centre", m
 
 
+@timed
 def block_gauge(ctx, tm, psi):
     run, rng = ctx.run, ctx.rng
     H = tm.dense_h()
@@ -641,6 +661,7 @@ def block_gauge(ctx, tm, psi):
                                                                 tensors=[L.tolist(np.asarray(t.array)) for t in mp]))
 
 
+@timed
 def block_switch(ctx, tm, psi):
     """sequences of calls that switch scheme and step; tolerance = what the dense propagator gives
     for the same sequence when each call is replaced by the scheme's own leading-error model is not
@@ -684,6 +705,7 @@ def block_switch(ctx, tm, psi):
             run.violation("switch:sequence-vs-dense", replay_base(tm, v0, dict(sequence=hist), error=err, tol=tol))
 
 
+@timed
 def block_shared_config(ctx, tm, psi):
     """A history in which the SAME EvolveConfig object is assigned before every call (the natural
     way to switch between two prepared configurations): the scheme must keep its order."""
@@ -716,6 +738,7 @@ def block_shared_config(ctx, tm, psi):
                                       config_fields_changed_by_evolve=changed))
 
 
+@timed
 def block_overcomplete(ctx, tm, qntot):
     """inputs whose bonds exceed the exact rank: canonical (`Mps.random` with a large m_max) and
     non-canonical (sum of two states, not canonicalised); reference = the same call on the
@@ -860,6 +883,7 @@ def search(run, rng, quick):
             run.count("budget-exhausted")
             break
     run.cov["evaluations"] = run.cov.get("evaluations", 0) + ctx.n_eval
+    run.cov["block_seconds"] = {k: round(v, 1) for k, v in ctx.timing.items()}
     run.cov["distinct_nontrivial"] = len(ctx.distinct)
     run.cov["rule"] = ("distinct (block, model class incl. real/complex/MpDm, scheme variant, gauge/bond class) tuples; "
                        "order/exact/vmf cases count only if ||psi(T)-psi(0)|| > 0.05")
